@@ -596,22 +596,7 @@ func Returns(fn *ssa.Function) []*ssa.Return {
 // reachableAvoiding: is block `to` reachable from `from` without passing through a block in avoid
 // (from itself is not tested against avoid)?
 func reachableAvoiding(from, to *ssa.BasicBlock, avoid map[*ssa.BasicBlock]bool) bool {
-	seen := map[*ssa.BasicBlock]bool{from: true}
-	work := []*ssa.BasicBlock{from}
-	for len(work) > 0 {
-		b := work[len(work)-1]
-		work = work[:len(work)-1]
-		if b == to {
-			return true
-		}
-		for _, s := range b.Succs {
-			if !seen[s] && !avoid[s] {
-				seen[s] = true
-				work = append(work, s)
-			}
-		}
-	}
-	return false
+	return reachableFromEdge(nil, from, to, avoid) // edge sensitive, see thread.go
 }
 
 // RetVal resolves result #i of a return to the value that is actually returned: when the
